@@ -373,6 +373,7 @@ pub fn lane_fates(tier: Tier, seed: u64) -> Vec<Scenario> {
                         docs: vec![doc(path, format, tests)],
                         cli: Cli::default(),
                         sim,
+                        pretty: false,
                         check: vec!["C05".into(), "C12".into(), "C13".into(), "C14".into(), "C15".into(), "C18".into(), "C20".into()],
                     };
                     if script {
@@ -429,6 +430,7 @@ pub fn lane_faults(tier: Tier, seed: u64) -> Vec<Scenario> {
                         docs: vec![doc(path, format, tests)],
                         cli: Cli::default(),
                         sim,
+                        pretty: false,
                         check: vec!["C05".into(), "C12".into(), "C13".into(), "C14".into(), "C15".into(), "C18".into(), "C20".into()],
                     };
                     fill_expectations(&mut sc, &mut g);
@@ -473,6 +475,8 @@ pub fn lane_timing(tier: Tier, seed: u64) -> Vec<Scenario> {
         Zero,
         ShortFront,
         ShortCli,
+        /// hours: free in virtual time, never exercised with real sleeps
+        HugeCli,
     }
     #[derive(Clone, Copy, Debug, PartialEq)]
     enum TestLim {
@@ -490,7 +494,7 @@ pub fn lane_timing(tier: Tier, seed: u64) -> Vec<Scenario> {
         DurOver,
     }
     for script in [false, true] {
-        for dl in [DocLim::Absent, DocLim::Zero, DocLim::ShortFront, DocLim::ShortCli] {
+        for dl in [DocLim::Absent, DocLim::Zero, DocLim::ShortFront, DocLim::ShortCli, DocLim::HugeCli] {
             for tl in [TestLim::Absent, TestLim::Shorter, TestLim::Longer] {
                 if script && tl != TestLim::Absent {
                     continue;
@@ -509,6 +513,7 @@ pub fn lane_timing(tier: Tier, seed: u64) -> Vec<Scenario> {
                                 DocLim::Absent => Some(900 * SEC),
                                 DocLim::Zero => None,
                                 DocLim::ShortFront | DocLim::ShortCli => Some(4 * SEC),
+                                DocLim::HugeCli => Some(7200 * SEC),
                             };
                             // the tests before the slow one take 1 s each
                             let before = pos as u64 * SEC;
@@ -608,6 +613,7 @@ pub fn lane_timing(tier: Tier, seed: u64) -> Vec<Scenario> {
                                         d.total_timeout_ns = Some(4 * SEC)
                                     }
                                 }
+                                DocLim::HugeCli => cli.timeout_seconds = Some(7200),
                                 DocLim::ShortCli => {
                                     cli.timeout_seconds = Some(4);
                                     if format == Format::Md {
@@ -630,6 +636,7 @@ pub fn lane_timing(tier: Tier, seed: u64) -> Vec<Scenario> {
                                 docs: vec![d],
                                 cli,
                                 sim,
+                                pretty: false,
                                 check: vec!["C05".into(), "C12".into(), "C14".into(), "C15".into(), "C18".into(), "C20".into()],
                             };
                             fill_expectations(&mut sc, &mut g);
@@ -797,6 +804,7 @@ pub fn lane_bytes(seed: u64) -> Vec<Scenario> {
                     docs: vec![d],
                     cli: Cli::default(),
                     sim,
+                    pretty: false,
                     check: check.clone(),
                 });
             }
@@ -835,6 +843,7 @@ pub fn lane_bytes(seed: u64) -> Vec<Scenario> {
                     docs: vec![doc("hostile.md", Format::Md, tests)],
                     cli: Cli::default(),
                     sim,
+                    pretty: false,
                     check: vec!["C13".into(), "C05".into(), "C20".into(), "C12".into()],
                 });
             }
@@ -877,6 +886,7 @@ pub fn lane_early_exit(seed: u64) -> Vec<Scenario> {
                     docs: vec![doc("early.md", Format::Md, vec![t])],
                     cli: Cli::default(),
                     sim,
+                    pretty: false,
                     check: vec!["C13".into(), "C14".into(), "C05".into()],
                 });
             }
